@@ -695,6 +695,49 @@ class Item:
         self.rewrite(bo + h.start(), bs, ";/*@pre*/\n  loop\n  /*@loop*/\n  {\n    let Some(%s) = vx_mc.next() else { break; };/*@body*/\n    let vx_e = " % p, "R3-map-collect")
         self.rewrite(be, semi + 1, ";\n    %s.push(vx_e);\n  }" % var, "R3-map-collect")
 
+    def r3_filter_map_collect_expr(self, fn, k):
+        """tail expression `RECV.filter_map(|P| BODY).collect()` (RECV an iterator value; BODY without `return` / `?`)  ==>
+        { let mut vx_fm = RECV; let mut vx_out = Vec::new(); loop { let Some(P) = vx_fm.next() else { break; };
+          let vx_e = BODY; if let Some(vx_x) = vx_e { vx_out.push(vx_x); } } vx_out }
+        (the definition of filter_map + collect::<Vec<_>>(); RECV and BODY stay in place)"""
+        k0, _, bo, end, _ = self.fn_span(fn)
+        hits = list(re.finditer(r"\.\s*filter_map\s*\(", self.m[bo:end]))
+        if len(hits) < k:
+            raise Undecided("LOST-ANCHOR: R3 filter-map-collect-expr #%d in fn %s of %s" % (k, fn, self.where()))
+        h = hits[k - 1]
+        par = bo + h.end() - 1
+        p, bs, be, close = self._closure_after(par)
+        if re.search(r"\breturn\b|\?", self.m[bs:be]):
+            raise Undecided("R3 filter-map-collect-expr: the closure body leaves early (return / ?) at %s:%d" % (self.relpath, self.line_of(bs)))
+        mc = re.match(r"\s*\.\s*collect\s*\(\s*\)", self.m[close + 1:])
+        if not mc:
+            raise Undecided("R3 filter-map-collect-expr: `.collect()` expected after the closure at %s:%d" % (self.relpath, self.line_of(close)))
+        cend = close + 1 + mc.end()
+        s0 = self._stmt_start(bo + h.start())
+        self.rewrite(s0, s0, "{ let mut vx_fm = ", "R3-filter-map-collect")
+        self.rewrite(bo + h.start(), bs, ";\n  let mut vx_out = Vec::new();/*@pre*/\n  loop\n  /*@loop*/\n  {\n    let Some(%s) = vx_fm.next() else { break; };/*@body*/\n    let vx_e = " % p, "R3-filter-map-collect")
+        self.rewrite(be, cend, ";\n    if let Some(vx_x) = vx_e { vx_out.push(vx_x); }\n  }\n  vx_out }", "R3-filter-map-collect")
+
+    def r3_position_expr(self, fn, k):
+        """tail expression `RECV.iter().position(|P| BODY)`  ==>  index loop returning the first index whose BODY holds:
+        { let mut vx_pos = None; let mut vx_i = 0; while vx_i < RECV.len() { let P = &RECV[vx_i]; let vx_b = BODY;
+          if vx_b { vx_pos = Some(vx_i); break; } vx_i += 1; } vx_pos }        (BODY stays in place)"""
+        k0, _, bo, end, _ = self.fn_span(fn)
+        hits = list(re.finditer(r"\.\s*iter\s*\(\s*\)\s*\.\s*position\s*\(", self.m[bo:end]))
+        if len(hits) < k:
+            raise Undecided("LOST-ANCHOR: R3 position-expr #%d in fn %s of %s" % (k, fn, self.where()))
+        h = hits[k - 1]
+        par = bo + h.end() - 1
+        p, bs, be, close = self._closure_after(par)
+        if re.search(r"\breturn\b|\?", self.m[bs:be]):
+            raise Undecided("R3 position-expr: the closure body leaves early (return / ?)")
+        s0 = self._stmt_start(bo + h.start())
+        recv = self.text[s0:bo + h.start()].strip()
+        if not re.match(r"[A-Za-z_][A-Za-z0-9_.]*$", recv):
+            raise Undecided("R3 position-expr: receiver is not a place expression at %s:%d" % (self.relpath, self.line_of(s0)))
+        self.rewrite(s0, bs, "{ let mut vx_pos: Option<usize> = None;\n  let mut vx_i: usize = 0;/*@pre*/\n  while vx_i < %s.len()\n  /*@loop*/\n  {\n    let %s = &%s[vx_i];/*@body*/\n    let vx_b = " % (recv, p, recv), "R3-position")
+        self.rewrite(be, close + 1, ";\n    if vx_b { vx_pos = Some(vx_i); break; }\n    vx_i = vx_i + 1;\n  }\n  vx_pos }", "R3-position")
+
     def r3_lift_filter_map(self, fn, k):
         """let V: T = RECV.into_iter().filter_map(|P| { BODY }).collect();   where the closure assigns captured variables
         (FnMut; this Verus has no closures with mutable captures)  ==>  lambda lifting + the definition of filter_map/collect:
